@@ -271,6 +271,19 @@ def op_scram(c):
     finally:
         os.urandom = _real_urandom
     r = {"client_nonce": cn.encode().hex(), "nonce_again": a.authextra["nonce"] == cn}
+    # mutual authentication: a WELCOME that was never preceded by a CHALLENGE proves nothing about the router; whatever
+    # signature it carries (the ones anyone can compute from empty exchange state included) must not be accepted
+    nc = []
+    for name, text in (("const-empty-state", base64.b64encode(hmac.new(hmac.new(b"", b"Server Key", hashlib.sha256).digest(), b"", hashlib.sha256).digest()).decode()),
+                       ("empty", ""), ("zeros", base64.b64encode(bytes(32)).decode())):
+        try:
+            a0 = auth.AuthScram(authid=T(c["authid"]), password=T(c["password"]))
+            a0.authextra
+            res0 = a0.on_welcome(_Sess(), {"scram_server_signature": text})
+            nc.append([name, "accept" if res0 is None else "reject"])
+        except Exception as e:
+            nc.append([name, "raised " + type(e).__name__])
+    r["welcome_no_challenge"] = nc
     extra = {k: (T(v) if isinstance(v, str) else v) for k, v in c["extra"].items()}
     extra.update({k: "".join(map(chr, v)) for k, v in c.get("extra_cps", {}).items()})   # code point lists (lone surrogates)
     for k in ("iterations", "memory"):
